@@ -204,13 +204,12 @@ class ExcEngine:
         return findings
 
     def _recv_path(self, f, st):
+        """stable site key: the receiver object path, or the first argument for free functions"""
         if st['k'] in q.CALL_KINDS:
             if 'obj' in st:
-                base = f.path(st['obj'])
-            else:
-                base = ''
-            args = ','.join(f.path(a) for a in st.get('args', [])[:2])
-            return (base + '(' + args + ')')
+                return f.path(st['obj'])
+            args = st.get('args', [])
+            return '(' + (f.path(args[0]) if args else '') + ')'
         return ''
 
 
